@@ -46,7 +46,14 @@ var trTargets = [][2]string{
 	{"ParseSource", ""}, {"Len", "Source"}, {"writeTo", "Source"},
 	{"Glob", ""},
 	{"Get", "Tags"}, {"ParseTags", ""}, {"ParseEvent", ""},
-	{"Set", "Tags"}, {"Len", "Tags"}, {"LenOpts", "Event"}, {"Bytes", "Event"},
+	{"Bytes", "Tags"}, {"writeTo", "Tags"}, {"Len", "Tags"}, {"Set", "Tags"},
+	{"LenOpts", "Event"}, {"Len", "Event"}, {"Bytes", "Event"},
+	{"Bytes", "Source"}, {"String", "Source"},
+	{"Last", "Event"}, {"IsCTCP", "Event"}, {"IsAction", "Event"}, {"StripAction", "Event"},
+	{"IsFromChannel", "Event"}, {"IsFromUser", "Event"},
+	{"ID", "Source"}, {"Equals", "Source"}, {"IsHostmask", "Source"}, {"IsServer", "Source"},
+	{"parseUserPrefix", ""}, {"hasArg", "CModes"},
+	{"TrimFmt", ""}, {"Fmt", ""}, {"StripRaw", ""},
 }
 
 // structTable: Go struct -> the fields that exist in the Lean structure of the same name
@@ -56,6 +63,27 @@ var structTable = map[string][]string{
 	"Source":    {"Name", "Ident", "Host"},
 	"Event":     {"Tags", "Source", "Command", "Params"},
 	"CTCPEvent": {"Source", "Command", "Text", "Reply"},
+	// CModes: the five string fields (modes []CMode is outside the subset); a struct that contains an unlisted
+	// field can be read through a pointer but never built by translated code (structOpaque).
+	"CModes": {"raw", "modesListArgs", "modesArgs", "modesSetArgs", "modesNoArgs", "prefixes"},
+}
+
+// structOpaque: structs of structTable that have further Lean fields the translator does not know; composite
+// literals, `new` and zero values of these are outside the subset.
+var structOpaque = map[string]bool{"CModes": true}
+
+// fieldRename: Go field -> Lean field where the hand-written structure uses another name (default: the Go
+// name with a lower-case first letter).
+var fieldRename = map[string]string{
+	"CModes.modesListArgs": "listArgs", "CModes.modesArgs": "argsM", "CModes.modesSetArgs": "setArgs",
+	"CModes.modesNoArgs": "noArgs",
+}
+
+func leanField(st, goField string) string {
+	if n, ok := fieldRename[st+"."+goField]; ok {
+		return n
+	}
+	return lowerFirst(goField)
 }
 
 // stdlibTable: Go call -> Lean term template ($1, $2 … = translated arguments), argument kinds, result
@@ -69,19 +97,37 @@ type libFn struct {
 }
 
 var stdlibTable = map[string]libFn{
-	"strings.IndexByte": {"indexByteI $1 $2", []kind{kStr, kByte}, kInt, false},
-	"bytes.IndexByte":   {"indexByteI $1 $2", []kind{kStr, kByte}, kInt, false},
-	"strings.Index":     {"indexI $1 $2", []kind{kStr, kStr}, kInt, false},
-	"strings.Contains":  {"containsSub $1 $2", []kind{kStr, kStr}, kBool, false},
-	"strings.HasPrefix": {"hasPrefix $1 $2", []kind{kStr, kStr}, kBool, false},
-	"strings.HasSuffix": {"hasSuffix $1 $2", []kind{kStr, kStr}, kBool, false},
-	"strings.Split":     {"split $1 $2", []kind{kStr, kStr}, kStrs, true},
-	"strings.ToUpper":   {"toUpperAscii $1", []kind{kStr}, kStr, false},
-	"bytes.ToValidUTF8": {"toValidUTF8 $2 $1", []kind{kStr, kStr}, kStr, false},
+	"strings.IndexByte":  {"indexByteI $1 $2", []kind{kStr, kByte}, kInt, false},
+	"bytes.IndexByte":    {"indexByteI $1 $2", []kind{kStr, kByte}, kInt, false},
+	"strings.Index":      {"indexI $1 $2", []kind{kStr, kStr}, kInt, false},
+	"strings.Contains":   {"containsSub $1 $2", []kind{kStr, kStr}, kBool, false},
+	"strings.HasPrefix":  {"hasPrefix $1 $2", []kind{kStr, kStr}, kBool, false},
+	"strings.HasSuffix":  {"hasSuffix $1 $2", []kind{kStr, kStr}, kBool, false},
+	"strings.Split":      {"split $1 $2", []kind{kStr, kStr}, kStrs, true},
+	"strings.ToUpper":    {"toUpperAscii $1", []kind{kStr}, kStr, false},
+	"strings.ToLower":    {"toLowerAscii $1", []kind{kStr}, kStr, false},
+	"strings.ReplaceAll": {"replaceAll $1 $2 $3", []kind{kStr, kStr, kStr}, kStr, true},
+	"bytes.ToValidUTF8":  {"toValidUTF8 $2 $1", []kind{kStr, kStr}, kStr, false},
 	// function-valued argument: keyed by "callee/argument name"
 	"strings.TrimFunc/cutCRFunc": {"trimCRLF $1", []kind{kStr}, kStr, false},
 	// package-local one-line wrapper around strings.FieldsFunc (its predicate is pinned in Gen/Facts.lean)
 	"splitParams": {"fieldsSp $1", []kind{kStr}, kStrs, false},
+}
+
+// regexDeleteTable: `X.ReplaceAllString(s, "")` for a package-level `var X = regexp.MustCompile(<pattern>)`: the
+// regular expression, keyed by its SOURCE TEXT, is mapped to a hand-written matcher (TRUSTED; the harness compares the
+// matcher with the real regexp in its stdlib stream).  A changed pattern is not in the table: fail-closed.
+var regexDeleteTable = map[string]string{
+	`\x03([019]?\d(,[019]?\d)?)`: "stripColor $1",
+}
+
+// stdlibProcTable: library procedures that update their (single, local-variable) argument in place:
+// Go call -> Lean function applied to the old value, and the kind of the argument.
+var stdlibProcTable = map[string]struct {
+	fn  string
+	arg kind
+}{
+	"sort.Strings": {"sortStrings", kStrs},
 }
 
 // ---------------------------------------------------------------------------------------------
@@ -101,6 +147,7 @@ const (
 	kStruct
 	kBuf  // *bytes.Buffer (threaded as Bytes)
 	kMap  // Tags (map[string]string), nil-able
+	kErr  // error: nil or an abstract error value (the message text is not modelled)
 	kUInt // untyped integer constant
 	kURune
 	kNil
@@ -129,6 +176,8 @@ func (t gty) lean() string {
 		return t.name
 	case kMap:
 		return "Option Tags"
+	case kErr:
+		return "Option GoErr"
 	}
 	return "?"
 }
@@ -198,13 +247,16 @@ type trGen struct {
 }
 
 type trSig struct {
-	name   string
-	fd     *ast.FuncDecl
-	params []trParam // receiver first
-	rets   []gty
-	inout  []string // names of in-out (buffer) parameters, appended to the results
-	ok     bool
-	why    string
+	name    string
+	fd      *ast.FuncDecl
+	params  []trParam // receiver first
+	rets    []gty
+	inout   []string        // names of in-out (buffer) parameters, appended to the results
+	orders  []string        // package-level maps the body ranges over: one extra leading parameter `<map>_order_` each
+	mapout  []string        // map parameters whose entries the body assigns (caller-visible): appended to the results after the buffers
+	rebound map[string]bool // map-out parameters that the body also re-binds (`t = make(Tags)`)
+	ok      bool
+	why     string
 }
 
 type trParam struct {
@@ -216,6 +268,9 @@ func (s *trSig) resultType() string {
 	ts := append([]gty{}, s.rets...)
 	for range s.inout {
 		ts = append(ts, gty{k: kBuf})
+	}
+	for range s.mapout {
+		ts = append(ts, gty{k: kMap})
 	}
 	return leanTuple(ts)
 }
@@ -247,6 +302,8 @@ func (g *trGen) goType(e ast.Expr) (gty, bool) {
 			return gty{k: kStr}, true
 		case "Tags":
 			return gty{k: kMap}, true
+		case "error":
+			return gty{k: kErr}, true
 		}
 		if _, ok := structTable[v.Name]; ok {
 			return gty{k: kStruct, name: v.Name}, true
@@ -261,6 +318,11 @@ func (g *trGen) goType(e ast.Expr) (gty, bool) {
 					return gty{k: kStrs}, true
 				}
 			}
+		}
+	case *ast.SelectorExpr:
+		// io.Writer: only *bytes.Buffer arguments are modelled (a writer is its contents; Write never fails)
+		if x, ok := v.X.(*ast.Ident); ok && x.Name == "io" && v.Sel.Name == "Writer" {
+			return gty{k: kBuf}, true
 		}
 	case *ast.StarExpr:
 		if sel, ok := v.X.(*ast.SelectorExpr); ok {
@@ -401,6 +463,67 @@ func (g *trGen) signature(name, recv string) *trSig {
 			}
 		}
 	}
+	// ranges over package-level maps: the visiting order becomes an explicit leading parameter
+	isParam := func(n string) bool {
+		for _, prm := range s.params {
+			if prm.name == leanVar(n) {
+				return true
+			}
+		}
+		return false
+	}
+	ast.Inspect(fd.Body, func(x ast.Node) bool {
+		if rs, ok := x.(*ast.RangeStmt); ok {
+			if id, ok := rs.X.(*ast.Ident); ok && !isParam(id.Name) && g.pkgMap(id.Name) != nil {
+				dup := false
+				for _, o := range s.orders {
+					if o == id.Name {
+						dup = true
+					}
+				}
+				if !dup {
+					s.orders = append(s.orders, id.Name)
+				}
+			}
+		}
+		return true
+	})
+	// map parameters the body writes through (`p[k] = v`): the final caller-visible map is an extra result
+	s.rebound = map[string]bool{}
+	for _, prm := range s.params {
+		if prm.t.k != kMap {
+			continue
+		}
+		elem, rebind := false, false
+		ast.Inspect(fd.Body, func(x ast.Node) bool {
+			switch v := x.(type) {
+			case *ast.AssignStmt:
+				for _, l := range v.Lhs {
+					if ix, ok := l.(*ast.IndexExpr); ok {
+						if id, ok := ix.X.(*ast.Ident); ok && leanVar(id.Name) == prm.name {
+							elem = true
+						}
+					}
+					if id, ok := l.(*ast.Ident); ok && leanVar(id.Name) == prm.name && v.Tok != token.DEFINE {
+						rebind = true
+					}
+				}
+			case *ast.CallExpr:
+				if id, ok := v.Fun.(*ast.Ident); ok && id.Name == "delete" && len(v.Args) > 0 {
+					if a, ok := v.Args[0].(*ast.Ident); ok && leanVar(a.Name) == prm.name {
+						elem = true
+					}
+				}
+			}
+			return true
+		})
+		if elem {
+			s.mapout = append(s.mapout, prm.name)
+			if rebind {
+				s.rebound[prm.name] = true
+			}
+		}
+	}
 	s.ok = true
 	return s
 }
@@ -410,6 +533,7 @@ func (g *trGen) signature(name, recv string) *trSig {
 // ---------------------------------------------------------------------------------------------
 
 type loopCtx struct {
+	extra   string // range loops: the name of the list of keys still to be visited
 	helper  string
 	imm     []string // immutable arguments (Lean names)
 	carried []string // all carried variables, in order
@@ -425,6 +549,9 @@ type ftr struct {
 	named    []string // named results
 	helpers  []string
 	nloops   int
+	alias    map[string]string // Go variable name -> Lean name, for names that are re-declared in a later sibling scope
+	ndecl    map[string]int
+	ntmp     int
 	loop     *loopCtx
 	deps     map[string]bool
 	inClosed bool
@@ -452,15 +579,39 @@ func (f *ftr) lookup(name string) (gty, bool) {
 
 func (f *ftr) declare(n ast.Node, name string, t gty) {
 	if _, ok := f.lookup(name); ok {
-		f.fail(n, "variable %q is declared twice in nested or sequential scopes (Lean `let mut` cannot be shadowed)", name)
+		f.fail(n, "variable %q shadows a variable that is still in scope (Lean `let mut` cannot be shadowed)", name)
 	}
+	reused := false
 	for _, o := range f.order {
 		if o == name {
-			f.fail(n, "variable name %q is reused in a sibling scope with a possibly different type", name)
+			reused = true
 		}
 	}
 	f.scopes[len(f.scopes)-1][name] = t
-	f.order = append(f.order, name)
+	if !reused {
+		f.order = append(f.order, name)
+		return
+	}
+	// the name was used by an earlier, now closed, sibling scope: the new variable gets a fresh Lean name
+	if f.loop != nil {
+		// the earlier variable may be a carried argument of the enclosing helper under the plain name
+	}
+	f.ndecl[name]++
+	fresh := fmt.Sprintf("%s_%d", leanVar(name), f.ndecl[name]+1)
+	for _, o := range f.order {
+		if leanVar(o) == fresh {
+			f.fail(n, "cannot pick a fresh name for the re-declared variable %q", name)
+		}
+	}
+	f.alias[name] = fresh
+}
+
+// lv is the Lean name of a local variable.
+func (f *ftr) lv(name string) string {
+	if a, ok := f.alias[name]; ok {
+		return a
+	}
+	return leanVar(name)
 }
 
 // declareScoped is for loop counters: the same name may be reused by sibling loops (it never lives in
@@ -550,6 +701,80 @@ func (f *ftr) pkgConst(id *ast.Ident) (string, gty, bool) {
 		}
 	}
 	return "", gty{}, false
+}
+
+// pkgMapInfo describes `var X = map[string]T{"k": v, …}` (T = string or int) with constant keys and values.
+type pkgMapInfo struct {
+	valKind kind
+	keys    []string
+}
+
+// pkgMap resolves a package-level map variable and emits its table (`abbrev X : List (Bytes × T)`, source order).
+func (g *trGen) pkgMap(name string) *pkgMapInfo {
+	val, ok := g.p.valueSpec(name)
+	if !ok {
+		return nil
+	}
+	cl, ok := val.(*ast.CompositeLit)
+	if !ok {
+		return nil
+	}
+	mt, ok := cl.Type.(*ast.MapType)
+	if !ok {
+		return nil
+	}
+	if id, ok := mt.Key.(*ast.Ident); !ok || id.Name != "string" {
+		return nil
+	}
+	vk := kInvalid
+	if id, ok := mt.Value.(*ast.Ident); ok {
+		switch id.Name {
+		case "string":
+			vk = kStr
+		case "int":
+			vk = kInt
+		}
+	}
+	if vk == kInvalid {
+		return nil
+	}
+	info := &pkgMapInfo{valKind: vk}
+	var rows []string
+	seen := map[string]bool{}
+	for _, el := range cl.Elts {
+		kv, ok := el.(*ast.KeyValueExpr)
+		if !ok {
+			return nil
+		}
+		k, ok := g.p.constString(kv.Key)
+		if !ok || seen[k] {
+			return nil
+		}
+		seen[k] = true
+		var v string
+		if vk == kStr {
+			sv, ok := g.p.constString(kv.Value)
+			if !ok {
+				return nil
+			}
+			v = bytesLit(sv)
+		} else {
+			iv, ok := g.p.constInt(kv.Value)
+			if !ok {
+				return nil
+			}
+			v = fmt.Sprintf("%d", iv)
+		}
+		info.keys = append(info.keys, k)
+		rows = append(rows, "("+bytesLit(k)+", "+v+")")
+	}
+	elt := "Bytes"
+	if vk == kInt {
+		elt = "Int"
+	}
+	g.consts[leanVar(name)] = fmt.Sprintf("abbrev %s : List (Bytes × %s) := [%s]  -- package-level map (%s)", leanVar(name), elt,
+		strings.Join(rows, ", "), g.pos(val))
+	return info
 }
 
 // replacerConst resolves `var X = strings.NewReplacer(a, b, …)` (arguments: string constants, or one
@@ -657,10 +882,10 @@ func (f *ftr) unify(n ast.Node, a, b gty) gty {
 	if fits(b, a) {
 		return a
 	}
-	if a.k == kNil && (b.k == kPtr || b.k == kMap) {
+	if a.k == kNil && (b.k == kPtr || b.k == kMap || b.k == kErr) {
 		return b
 	}
-	if b.k == kNil && (a.k == kPtr || a.k == kMap) {
+	if b.k == kNil && (a.k == kPtr || a.k == kMap || a.k == kErr) {
 		return a
 	}
 	f.fail(n, "operands of different types (%s vs %s)", a.lean(), b.lean())
@@ -682,7 +907,7 @@ func (f *ftr) expr(e ast.Expr) xr {
 			return xr{"none", gty{k: kNil}, false}
 		}
 		if t, ok := f.lookup(v.Name); ok {
-			return xr{leanVar(v.Name), t, false}
+			return xr{f.lv(v.Name), t, false}
 		}
 		if c, t, ok := f.pkgConst(v); ok {
 			return xr{c, t, false}
@@ -779,7 +1004,7 @@ func (f *ftr) selector(v *ast.SelectorExpr) xr {
 	if !ok {
 		f.fail(v, "field %s.%s is outside the model", st, v.Sel.Name)
 	}
-	fld := lowerFirst(v.Sel.Name)
+	fld := leanField(st, v.Sel.Name)
 	if x.t.k == kPtr {
 		return xr{"(← deref " + x.code + ")." + fld, ft, true}
 	}
@@ -796,7 +1021,7 @@ func (f *ftr) zero(n ast.Node, t gty) string {
 		return "false"
 	case kStr, kStrs:
 		return "[]"
-	case kPtr, kMap:
+	case kPtr, kMap, kErr:
 		return "none"
 	case kStruct:
 		return f.structVal(n, t.name, map[string]string{})
@@ -806,6 +1031,9 @@ func (f *ftr) zero(n ast.Node, t gty) string {
 }
 
 func (f *ftr) structVal(n ast.Node, st string, vals map[string]string) string {
+	if structOpaque[st] {
+		f.fail(n, "a value of struct %s is built (it has fields outside the model)", st)
+	}
 	var parts []string
 	for _, fld := range structTable[st] {
 		ft, ok := f.g.structFieldType(st, fld)
@@ -816,7 +1044,7 @@ func (f *ftr) structVal(n ast.Node, st string, vals map[string]string) string {
 		if !ok {
 			v = f.zero(n, ft)
 		}
-		parts = append(parts, lowerFirst(fld)+" := "+v)
+		parts = append(parts, leanField(st, fld)+" := "+v)
 	}
 	return "({ " + strings.Join(parts, ", ") + " } : " + st + ")"
 }
@@ -871,7 +1099,7 @@ func (f *ftr) assignable(n ast.Node, dst, src gty) {
 	if (dst.k == kInt && src.k == kUInt) || (dst.k == kByte && (src.k == kUInt || src.k == kURune)) {
 		return
 	}
-	if (dst.k == kPtr || dst.k == kMap) && src.k == kNil {
+	if (dst.k == kPtr || dst.k == kMap || dst.k == kErr) && src.k == kNil {
 		return
 	}
 	f.fail(n, "cannot assign %s to %s", src.lean(), dst.lean())
@@ -902,7 +1130,7 @@ func (f *ftr) binary(v *ast.BinaryExpr) xr {
 			if a.t.k == kNil {
 				x = b
 			}
-			if x.t.k != kPtr && x.t.k != kMap {
+			if x.t.k != kPtr && x.t.k != kMap && x.t.k != kErr {
 				f.fail(v, "nil comparison on %s", x.t.lean())
 			}
 			m := ".isNone"
@@ -996,7 +1224,7 @@ func (f *ftr) call(v *ast.CallExpr) xr {
 		switch {
 		case t.k == kStr && x.t.k == kStr:
 			return xr{x.code, t, x.eff} // string(b []byte) / []byte(s): same representation
-		case t.k == kStr && x.t.k == kByte:
+		case t.k == kStr && (x.t.k == kByte || x.t.k == kURune):
 			if _, isArr := v.Fun.(*ast.ArrayType); !isArr {
 				return xr{"(strOfByte " + x.code + ")", t, x.eff}
 			}
@@ -1046,6 +1274,64 @@ func (f *ftr) call(v *ast.CallExpr) xr {
 		}
 		f.fail(v, "append(%s, %s)", x.t.lean(), y.t.lean())
 	}
+	if name == "fmt.Sprintf" {
+		// only formats made of literal text and `%02d` verbs (int arguments)
+		if len(v.Args) == 0 {
+			f.fail(v, "fmt.Sprintf without a format")
+		}
+		format, ok := f.g.p.constString(v.Args[0])
+		if !ok {
+			f.fail(v, "fmt.Sprintf with a non-constant format")
+		}
+		var parts []string
+		eff := false
+		argi := 1
+		lit := ""
+		flush := func() {
+			if lit != "" {
+				parts = append(parts, bytesLit(lit))
+				lit = ""
+			}
+		}
+		for i := 0; i < len(format); i++ {
+			if format[i] != '%' {
+				lit += string(format[i])
+				continue
+			}
+			if strings.HasPrefix(format[i:], "%%") {
+				lit += "%"
+				i++
+				continue
+			}
+			if !strings.HasPrefix(format[i:], "%02d") || argi >= len(v.Args) {
+				f.fail(v, "fmt.Sprintf format %q (only literal text and %%02d are modelled)", format)
+			}
+			flush()
+			a := f.intExpr(v.Args[argi])
+			argi++
+			eff = eff || a.eff
+			parts = append(parts, "(fmtD2 "+a.code+")")
+			i += 3
+		}
+		flush()
+		if argi != len(v.Args) {
+			f.fail(v, "fmt.Sprintf: %d arguments for format %q", len(v.Args)-1, format)
+		}
+		if len(parts) == 0 {
+			return xr{"([] : Bytes)", gty{k: kStr}, false}
+		}
+		return xr{"(" + strings.Join(parts, " ++ ") + ")", gty{k: kStr}, eff}
+	}
+	if name == "fmt.Errorf" {
+		// an error VALUE: non-nil, message text abstracted.  The arguments must be expressions of the subset
+		// that cannot panic (they are only formatted).
+		for _, a := range v.Args {
+			if x := f.expr(a); x.eff {
+				f.fail(a, "fmt.Errorf argument that can panic")
+			}
+		}
+		return xr{"(some GoErr.mk)", gty{k: kErr}, false}
+	}
 	// standard library (possibly keyed by a function-valued argument)
 	key := name
 	args := v.Args
@@ -1091,15 +1377,38 @@ func (f *ftr) call(v *ast.CallExpr) xr {
 			}
 		}
 	}
+	// X.ReplaceAllString(s, "") for a package-level regular expression of regexDeleteTable
+	if sel, ok := v.Fun.(*ast.SelectorExpr); ok && sel.Sel.Name == "ReplaceAllString" && len(v.Args) == 2 {
+		if id, ok := sel.X.(*ast.Ident); ok {
+			if _, isLocal := f.lookup(id.Name); !isLocal {
+				if val, ok := f.g.p.valueSpec(id.Name); ok {
+					if ce, ok := val.(*ast.CallExpr); ok && calleeName(ce.Fun) == "regexp.MustCompile" && len(ce.Args) == 1 {
+						pat, ok1 := f.g.p.constString(ce.Args[0])
+						repl, ok2 := f.g.p.constString(v.Args[1])
+						tmpl, ok3 := regexDeleteTable[pat]
+						if !ok1 || !ok3 {
+							f.fail(v, "regular expression %s is not in the table of hand-modelled patterns", id.Name)
+						}
+						if !ok2 || repl != "" {
+							f.fail(v, "%s.ReplaceAllString with a non-empty replacement", id.Name)
+						}
+						x := f.expr(v.Args[0])
+						f.assignable(v, gty{k: kStr}, x.t)
+						return xr{"(" + strings.ReplaceAll(tmpl, "$1", x.code) + ")", gty{k: kStr}, x.eff}
+					}
+				}
+			}
+		}
+	}
 	// bytes.Buffer read accessors
 	if sel, ok := v.Fun.(*ast.SelectorExpr); ok {
 		if id, ok := sel.X.(*ast.Ident); ok {
 			if t, ok := f.lookup(id.Name); ok && t.k == kBuf && len(v.Args) == 0 {
 				switch sel.Sel.Name {
 				case "Len":
-					return xr{"(len " + leanVar(id.Name) + ")", gty{k: kInt}, false}
+					return xr{"(len " + f.lv(id.Name) + ")", gty{k: kInt}, false}
 				case "Bytes", "String":
-					return xr{leanVar(id.Name), gty{k: kStr}, false}
+					return xr{f.lv(id.Name), gty{k: kStr}, false}
 				}
 			}
 		}
@@ -1155,6 +1464,12 @@ func (f *ftr) callTarget(v *ast.CallExpr, allowMulti bool) (xr, bool) {
 	}
 	if len(args) != len(sig.params) {
 		f.fail(v, "call of %s with %d arguments", sig.name, len(args))
+	}
+	if len(sig.mapout) > 0 {
+		f.fail(v, "call of %s, which assigns entries of its map argument", sig.name)
+	}
+	if len(sig.orders) > 0 {
+		f.fail(v, "call of %s, which ranges over a package-level map (its order parameters are not threaded through callers)", sig.name)
 	}
 	f.deps[sig.name] = true
 	code := sig.name
@@ -1213,6 +1528,13 @@ func (e *emitter) add(ind int, s string) {
 func (f *ftr) retCode(vals []string) string {
 	all := append([]string{}, vals...)
 	all = append(all, f.sig.inout...)
+	for _, m := range f.sig.mapout {
+		if f.sig.rebound[m] {
+			all = append(all, m+"_out_")
+		} else {
+			all = append(all, m)
+		}
+	}
 	v := tupleVal(all)
 	if f.loop != nil {
 		return "return .ret " + v
@@ -1241,8 +1563,26 @@ func (f *ftr) setVar(n ast.Node, name string, val xr, ind int, em *emitter) {
 	if !ok {
 		f.fail(n, "assignment to unknown variable %s", name)
 	}
-	f.assignable(n, t, val.t)
-	em.add(ind, leanVar(name)+" := "+val.code)
+	val = f.coerce(n, t, val)
+	em.add(ind, f.lv(name)+" := "+val.code)
+	if f.sig.rebound[f.lv(name)] && f.isParam(name) {
+		if f.loop != nil {
+			f.fail(n, "map parameter %s is re-bound inside a loop", name)
+		}
+		em.add(ind, f.lv(name)+"_linked_ := false")
+	}
+}
+
+// coerce checks assignability and renders an untyped nil at a slice type as the empty slice.
+func (f *ftr) coerce(n ast.Node, dst gty, x xr) xr {
+	if x.t.k == kNil && (dst.k == kStr || dst.k == kStrs) {
+		if dst.k == kStr {
+			return xr{"([] : Bytes)", dst, false}
+		}
+		return xr{"([] : List Bytes)", dst, false}
+	}
+	f.assignable(n, dst, x.t)
+	return x
 }
 
 func (f *ftr) defType(n ast.Node, t gty) gty {
@@ -1283,7 +1623,7 @@ func (f *ftr) stmt(s ast.Stmt, ind int, em *emitter) (terminates bool) {
 			}
 			for _, n := range vs.Names {
 				f.declare(n, n.Name, t)
-				em.add(ind, fmt.Sprintf("let mut %s : %s := %s", leanVar(n.Name), t.lean(), f.zero(n, t)))
+				em.add(ind, fmt.Sprintf("let mut %s : %s := %s", f.lv(n.Name), t.lean(), f.zero(n, t)))
 			}
 		}
 		return false
@@ -1303,7 +1643,7 @@ func (f *ftr) stmt(s ast.Stmt, ind int, em *emitter) (terminates bool) {
 		if t.k != kInt {
 			f.fail(v, "++/-- on %s", t.lean())
 		}
-		em.add(ind, leanVar(id.Name)+" := "+leanVar(id.Name)+op)
+		em.add(ind, f.lv(id.Name)+" := "+f.lv(id.Name)+op)
 		return false
 	case *ast.ExprStmt:
 		f.exprStmt(v, ind, em)
@@ -1315,15 +1655,14 @@ func (f *ftr) stmt(s ast.Stmt, ind int, em *emitter) (terminates bool) {
 				f.fail(v, "naked return without named results")
 			}
 			for _, n := range f.named {
-				vals = append(vals, leanVar(n))
+				vals = append(vals, f.lv(n))
 			}
 		} else {
 			if len(v.Results) != len(f.sig.rets) {
 				f.fail(v, "return of a multi-valued call")
 			}
 			for i, r := range v.Results {
-				x := f.expr(r)
-				f.assignable(r, f.sig.rets[i], x.t)
+				x := f.coerce(r, f.sig.rets[i], f.expr(r))
 				vals = append(vals, x.code)
 			}
 		}
@@ -1335,6 +1674,9 @@ func (f *ftr) stmt(s ast.Stmt, ind int, em *emitter) (terminates bool) {
 		return f.switchStmt(v, ind, em)
 	case *ast.ForStmt:
 		f.forStmt(v, ind, em)
+		return false
+	case *ast.RangeStmt:
+		f.rangeStmt(v, ind, em)
 		return false
 	case *ast.BranchStmt:
 		if v.Label != nil || f.loop == nil {
@@ -1361,11 +1703,63 @@ func (f *ftr) loopCall(fuel string) string {
 	parts := []string{f.loop.helper}
 	parts = append(parts, f.loop.imm...)
 	parts = append(parts, fuel)
+	if f.loop.extra != "" {
+		parts = append(parts, f.loop.extra)
+	}
 	parts = append(parts, f.loop.carried...)
 	return strings.Join(parts, " ")
 }
 
+// bufWrite2 translates `n, err = w.Write(b)` / `n, err := w.Write(b)` for a buffer w: the bytes are appended,
+// n is their number and err is nil (a bytes.Buffer write never fails).
+func (f *ftr) bufWrite2(v *ast.AssignStmt, ind int, em *emitter) bool {
+	if len(v.Lhs) != 2 || len(v.Rhs) != 1 {
+		return false
+	}
+	call, ok := v.Rhs[0].(*ast.CallExpr)
+	if !ok || len(call.Args) != 1 {
+		return false
+	}
+	sel, ok := call.Fun.(*ast.SelectorExpr)
+	if !ok || (sel.Sel.Name != "Write" && sel.Sel.Name != "WriteString") {
+		return false
+	}
+	id, ok := sel.X.(*ast.Ident)
+	if !ok {
+		return false
+	}
+	if t, ok := f.lookup(id.Name); !ok || t.k != kBuf {
+		return false
+	}
+	x := f.expr(call.Args[0])
+	f.assignable(v, gty{k: kStr}, x.t)
+	f.ntmp++
+	tmp := fmt.Sprintf("wr%d_", f.ntmp)
+	em.add(ind, fmt.Sprintf("let %s : Bytes := %s", tmp, x.code))
+	em.add(ind, fmt.Sprintf("%s := %s ++ %s", f.lv(id.Name), f.lv(id.Name), tmp))
+	vals := [2]xr{{"(len " + tmp + ")", gty{k: kInt}, false}, {"none", gty{k: kErr}, false}}
+	for i, l := range v.Lhs {
+		lid, ok := l.(*ast.Ident)
+		if !ok {
+			f.fail(l, "assignment target of a Write result")
+		}
+		if lid.Name == "_" {
+			continue
+		}
+		if v.Tok == token.DEFINE {
+			f.declare(lid, lid.Name, vals[i].t)
+			em.add(ind, fmt.Sprintf("let mut %s : %s := %s", f.lv(lid.Name), vals[i].t.lean(), vals[i].code))
+		} else {
+			f.setVar(v, lid.Name, vals[i], ind, em)
+		}
+	}
+	return true
+}
+
 func (f *ftr) assign(v *ast.AssignStmt, ind int, em *emitter) {
+	if (v.Tok == token.DEFINE || v.Tok == token.ASSIGN) && f.bufWrite2(v, ind, em) {
+		return
+	}
 	switch v.Tok {
 	case token.DEFINE:
 		if len(v.Lhs) == len(v.Rhs) {
@@ -1384,9 +1778,34 @@ func (f *ftr) assign(v *ast.AssignStmt, ind int, em *emitter) {
 				}
 				t := f.defType(l, xs[i].t)
 				f.declare(id, id.Name, t)
-				em.add(ind, fmt.Sprintf("let mut %s : %s := %s", leanVar(id.Name), t.lean(), xs[i].code))
+				em.add(ind, fmt.Sprintf("let mut %s : %s := %s", f.lv(id.Name), t.lean(), xs[i].code))
 			}
 			return
+		}
+		// `v, ok := X[k]` on a package-level map literal
+		if ix, ok := v.Rhs[0].(*ast.IndexExpr); ok && len(v.Lhs) == 2 && len(v.Rhs) == 1 {
+			if id, ok := ix.X.(*ast.Ident); ok {
+				if _, isLocal := f.lookup(id.Name); !isLocal {
+					if info := f.g.pkgMap(id.Name); info != nil {
+						k := f.expr(ix.Index)
+						f.assignable(v, gty{k: kStr}, k.t)
+						get, zero := "pmGetS", gty{k: kStr}
+						if info.valKind == kInt {
+							get, zero = "pmGetI", gty{k: kInt}
+						}
+						names := [2]string{v.Lhs[0].(*ast.Ident).Name, v.Lhs[1].(*ast.Ident).Name}
+						if names[0] != "_" {
+							f.declare(v, names[0], zero)
+							em.add(ind, fmt.Sprintf("let mut %s : %s := (%s %s %s)", f.lv(names[0]), zero.lean(), get, leanVar(id.Name), k.code))
+						}
+						if names[1] != "_" {
+							f.declare(v, names[1], gty{k: kBool})
+							em.add(ind, fmt.Sprintf("let mut %s : Bool := (pmHas %s %s)", f.lv(names[1]), leanVar(id.Name), k.code))
+						}
+						return
+					}
+				}
+			}
 		}
 		// `v, ok := m[k]` on a map
 		if ix, ok := v.Rhs[0].(*ast.IndexExpr); ok && len(v.Lhs) == 2 && len(v.Rhs) == 1 {
@@ -1397,11 +1816,11 @@ func (f *ftr) assign(v *ast.AssignStmt, ind int, em *emitter) {
 				names := [2]string{v.Lhs[0].(*ast.Ident).Name, v.Lhs[1].(*ast.Ident).Name}
 				if names[0] != "_" {
 					f.declare(v, names[0], gty{k: kStr})
-					em.add(ind, fmt.Sprintf("let mut %s : Bytes := (mapGet %s %s)", leanVar(names[0]), m.code, k.code))
+					em.add(ind, fmt.Sprintf("let mut %s : Bytes := (mapGet %s %s)", f.lv(names[0]), m.code, k.code))
 				}
 				if names[1] != "_" {
 					f.declare(v, names[1], gty{k: kBool})
-					em.add(ind, fmt.Sprintf("let mut %s : Bool := (mapHas %s %s)", leanVar(names[1]), m.code, k.code))
+					em.add(ind, fmt.Sprintf("let mut %s : Bool := (mapHas %s %s)", f.lv(names[1]), m.code, k.code))
 				}
 				return
 			}
@@ -1419,13 +1838,13 @@ func (f *ftr) assign(v *ast.AssignStmt, ind int, em *emitter) {
 							continue
 						}
 						f.declare(id, id.Name, sig.rets[i])
-						pats = append(pats, leanVar(id.Name)+"_0")
+						pats = append(pats, f.lv(id.Name)+"_0")
 					}
 					em.add(ind, "let ("+strings.Join(pats, ", ")+") := "+x.code)
 					for i, l := range v.Lhs {
 						id := l.(*ast.Ident)
 						if id.Name != "_" {
-							em.add(ind, fmt.Sprintf("let mut %s : %s := %s_0", leanVar(id.Name), sig.rets[i].lean(), leanVar(id.Name)))
+							em.add(ind, fmt.Sprintf("let mut %s : %s := %s_0", f.lv(id.Name), sig.rets[i].lean(), f.lv(id.Name)))
 						}
 					}
 					return
@@ -1469,7 +1888,14 @@ func (f *ftr) assignTo(lhs ast.Expr, val xr, n ast.Node, ind int, em *emitter) {
 			k := f.expr(l.Index)
 			f.assignable(n, gty{k: kStr}, k.t)
 			f.assignable(n, gty{k: kStr}, val.t)
-			em.add(ind, fmt.Sprintf("%s := (← mapSet %s %s %s)", leanVar(id.Name), leanVar(id.Name), k.code, val.code))
+			em.add(ind, fmt.Sprintf("%s := (← mapSet %s %s %s)", f.lv(id.Name), f.lv(id.Name), k.code, val.code))
+			if f.sig.rebound[f.lv(id.Name)] && f.isParam(id.Name) {
+				if f.loop != nil {
+					f.fail(n, "entry of the re-bound map parameter %s is assigned inside a loop", id.Name)
+				}
+				em.add(ind, fmt.Sprintf("if %s_linked_ then", f.lv(id.Name)))
+				em.add(ind+1, fmt.Sprintf("%s_out_ := %s", f.lv(id.Name), f.lv(id.Name)))
+			}
 			return
 		}
 		if t.k != kStr {
@@ -1477,7 +1903,7 @@ func (f *ftr) assignTo(lhs ast.Expr, val xr, n ast.Node, ind int, em *emitter) {
 		}
 		f.assignable(n, gty{k: kByte}, val.t)
 		i := f.intExpr(l.Index)
-		em.add(ind, fmt.Sprintf("%s := (← setI %s %s %s)", leanVar(id.Name), leanVar(id.Name), i.code, val.code))
+		em.add(ind, fmt.Sprintf("%s := (← setI %s %s %s)", f.lv(id.Name), f.lv(id.Name), i.code, val.code))
 		return
 	case *ast.SelectorExpr:
 		id, ok := l.X.(*ast.Ident)
@@ -1493,14 +1919,14 @@ func (f *ftr) assignTo(lhs ast.Expr, val xr, n ast.Node, ind int, em *emitter) {
 			f.fail(n, "assignment to field %s.%s, which is outside the model", t.name, l.Sel.Name)
 		}
 		f.assignable(n, ft, val.t)
-		name := leanVar(id.Name)
+		name := f.lv(id.Name)
 		if f.isParam(id.Name) {
 			f.fail(n, "field assignment through parameter %s (caller-visible mutation)", id.Name)
 		}
 		if t.k == kPtr {
-			em.add(ind, fmt.Sprintf("%s := some { (← deref %s) with %s := %s }", name, name, lowerFirst(l.Sel.Name), val.code))
+			em.add(ind, fmt.Sprintf("%s := some { (← deref %s) with %s := %s }", name, name, leanField(t.name, l.Sel.Name), val.code))
 		} else {
-			em.add(ind, fmt.Sprintf("%s := { %s with %s := %s }", name, name, lowerFirst(l.Sel.Name), val.code))
+			em.add(ind, fmt.Sprintf("%s := { %s with %s := %s }", name, name, leanField(t.name, l.Sel.Name), val.code))
 		}
 		return
 	}
@@ -1521,10 +1947,25 @@ func (f *ftr) exprStmt(v *ast.ExprStmt, ind int, em *emitter) {
 	if !ok {
 		f.fail(v, "expression statement")
 	}
+	if pr, ok := stdlibProcTable[calleeName(call.Fun)]; ok {
+		if len(call.Args) != 1 {
+			f.fail(v, "%s with %d arguments", calleeName(call.Fun), len(call.Args))
+		}
+		id, ok := call.Args[0].(*ast.Ident)
+		if !ok {
+			f.fail(v, "%s of a non-variable", calleeName(call.Fun))
+		}
+		t, ok := f.lookup(id.Name)
+		if !ok || t.k != pr.arg || f.isParam(id.Name) {
+			f.fail(v, "%s: the argument must be a local variable of the expected type (a parameter would alias the caller's slice)", calleeName(call.Fun))
+		}
+		em.add(ind, fmt.Sprintf("%s := (%s %s)", f.lv(id.Name), pr.fn, f.lv(id.Name)))
+		return
+	}
 	if sel, ok := call.Fun.(*ast.SelectorExpr); ok {
 		if id, ok := sel.X.(*ast.Ident); ok {
 			if t, ok := f.lookup(id.Name); ok && t.k == kBuf {
-				b := leanVar(id.Name)
+				b := f.lv(id.Name)
 				switch sel.Sel.Name {
 				case "WriteString", "Write":
 					x := f.expr(call.Args[0])
@@ -1548,9 +1989,6 @@ func (f *ftr) exprStmt(v *ast.ExprStmt, ind int, em *emitter) {
 			em.add(ind, "let _ ← "+strings.TrimSuffix(strings.TrimPrefix(x.code, "(← "), ")"))
 			return
 		}
-		if len(sig.rets) != 0 {
-			f.fail(v, "in-out call with results")
-		}
 		var outs []string
 		for i, p := range sig.params {
 			if p.t.k != kBuf {
@@ -1564,12 +2002,20 @@ func (f *ftr) exprStmt(v *ast.ExprStmt, ind int, em *emitter) {
 			if !ok {
 				f.fail(v, "buffer argument is not a variable")
 			}
-			outs = append(outs, leanVar(id.Name))
+			outs = append(outs, f.lv(id.Name))
 		}
 		if len(outs) != 1 {
 			f.fail(v, "call with %d buffer arguments", len(outs))
 		}
-		em.add(ind, outs[0]+" := (← "+x.code+")")
+		if len(sig.rets) == 0 {
+			em.add(ind, outs[0]+" := (← "+x.code+")")
+			return
+		}
+		// the results are discarded, the buffer is kept
+		f.ntmp++
+		tmp := fmt.Sprintf("io%d_", f.ntmp)
+		em.add(ind, "let ("+strings.Repeat("_, ", len(sig.rets))+tmp+") ← "+x.code)
+		em.add(ind, outs[0]+" := "+tmp)
 		return
 	}
 	f.fail(v, "call statement %s", exprString(call.Fun))
@@ -1600,6 +2046,9 @@ func (f *ftr) cond(e ast.Expr) string {
 
 func (f *ftr) ifStmt(v *ast.IfStmt, ind int, em *emitter) bool {
 	if v.Init != nil {
+		// the init variables live until the end of the if statement
+		f.push()
+		defer f.pop()
 		f.stmt(v.Init, ind, em)
 	}
 	em.add(ind, "if "+f.cond(v.Cond)+" then")
@@ -1872,6 +2321,11 @@ func assignedIn(n ast.Node, assigned, declared map[string]bool, bufs func(string
 				}
 			}
 		case *ast.CallExpr:
+			if _, ok := stdlibProcTable[calleeName(v.Fun)]; ok && len(v.Args) == 1 {
+				if id, ok := v.Args[0].(*ast.Ident); ok {
+					assigned[id.Name] = true
+				}
+			}
 			if sel, ok := v.Fun.(*ast.SelectorExpr); ok {
 				if id, ok := sel.X.(*ast.Ident); ok && bufs(id.Name) {
 					assigned[id.Name] = true
@@ -1950,14 +2404,14 @@ func (f *ftr) forStmt(v *ast.ForStmt, ind int, em *emitter) {
 		}
 		switch {
 		case name == initName || (assigned[name] && !declared[name]):
-			carried = append(carried, leanVar(name))
+			carried = append(carried, f.lv(name))
 			carriedT = append(carriedT, t)
 			if name != initName {
-				outer = append(outer, leanVar(name))
+				outer = append(outer, f.lv(name))
 				outerT = append(outerT, t)
 			}
 		case used[name]:
-			imm = append(imm, leanVar(name))
+			imm = append(imm, f.lv(name))
 			immT = append(immT, t)
 		}
 	}
@@ -1973,7 +2427,7 @@ func (f *ftr) forStmt(v *ast.ForStmt, ind int, em *emitter) {
 	fuel := ""
 	if be, ok := v.Cond.(*ast.BinaryExpr); ok && (be.Op == token.LSS || be.Op == token.LEQ) {
 		if id, ok := be.X.(*ast.Ident); ok {
-			lo := leanVar(id.Name)
+			lo := f.lv(id.Name)
 			if id.Name == initName {
 				lo = initVal.code
 			}
@@ -1991,7 +2445,7 @@ func (f *ftr) forStmt(v *ast.ForStmt, ind int, em *emitter) {
 		var lens []string
 		for _, name := range f.order {
 			if t, ok := f.lookup(name); ok && used[name] && (t.k == kStr || t.k == kStrs) {
-				lens = append(lens, "len "+leanVar(name))
+				lens = append(lens, "len "+f.lv(name))
 			}
 		}
 		if len(lens) == 0 {
@@ -2039,12 +2493,178 @@ func (f *ftr) forStmt(v *ast.ForStmt, ind int, em *emitter) {
 	// the call site
 	call := helper + prefixEach(" ", imm) + " " + fuel
 	for _, c := range carried {
-		if initName != "" && c == leanVar(initName) {
+		if initName != "" && c == f.lv(initName) {
 			call += " " + parenArg(initVal.code)
 		} else {
 			call += " " + c
 		}
 	}
+	f.loopCallSite(call, outer, ind, em)
+}
+
+// rangeStmt translates `for k := range m` / `for k, v := range m` over a map (a local, a parameter or a struct
+// field) that the body does not assign.  Go leaves the iteration order unspecified; the translation visits
+// `mapKeys m`, the keys in the order of the association list that REPRESENTS the map, so "for every order Go
+// may pick" is "for every representation of the same map" (every permutation of the list) in the theorems.
+func (f *ftr) rangeStmt(v *ast.RangeStmt, ind int, em *emitter) {
+	f.nloops++
+	helper := fmt.Sprintf("%s_loop%d", f.sig.name, f.nloops)
+	if v.Tok != token.DEFINE || v.Key == nil {
+		f.fail(v, "range without `:=` variables")
+	}
+	pkgOrder, pkgName := "", ""
+	var pkgInfo *pkgMapInfo
+	var m xr
+	if id, ok := v.X.(*ast.Ident); ok {
+		if _, isLocal := f.lookup(id.Name); !isLocal {
+			for _, o := range f.sig.orders {
+				if o == id.Name {
+					pkgOrder = leanVar(id.Name) + "_order_"
+				}
+			}
+			if pkgOrder == "" {
+				f.fail(v, "range over %s, which is neither a local map nor a package-level map[string]string/int literal", id.Name)
+			}
+			pkgInfo = f.g.pkgMap(id.Name)
+			pkgName = leanVar(id.Name)
+		}
+	}
+	if pkgOrder == "" {
+		m = f.expr(v.X)
+		if m.t.k != kMap {
+			f.fail(v, "range over %s (only maps)", m.t.lean())
+		}
+	}
+	keyId, ok := v.Key.(*ast.Ident)
+	if !ok {
+		f.fail(v, "range key")
+	}
+	keyName, keyLean := keyId.Name, ""
+	if keyName == "_" {
+		keyName, keyLean = "", "k_"
+	}
+	valName := ""
+	if v.Value != nil {
+		vid, ok := v.Value.(*ast.Ident)
+		if !ok {
+			f.fail(v, "range value")
+		}
+		if vid.Name != "_" {
+			valName = vid.Name
+		}
+	}
+	f.push()
+	defer f.pop()
+	if keyName != "" {
+		f.declareScoped(v, keyName, gty{k: kStr})
+	}
+	valT := gty{k: kStr}
+	if pkgInfo != nil && pkgInfo.valKind == kInt {
+		valT = gty{k: kInt}
+	}
+	if valName != "" {
+		f.declareScoped(v, valName, valT)
+	}
+
+	assigned, declared := map[string]bool{}, map[string]bool{}
+	bufs := func(n string) bool { t, ok := f.lookup(n); return ok && t.k == kBuf }
+	inouts := func(c *ast.CallExpr) []string { return f.inoutArgs(c) }
+	assignedIn(v.Body, assigned, declared, bufs, inouts)
+	used := map[string]bool{}
+	identsIn(v.Body, used)
+	mvars := map[string]bool{}
+	identsIn(v.X, mvars)
+	for name := range mvars {
+		if assigned[name] {
+			f.fail(v, "the ranged-over map %s is assigned in the loop body", name)
+		}
+	}
+	if (keyName != "" && assigned[keyName]) || (valName != "" && assigned[valName]) {
+		f.fail(v, "range variable assigned in the loop body")
+	}
+	var carried, outer, imm []string
+	var carriedT, outerT, immT []gty
+	for _, name := range f.order {
+		t, ok := f.lookup(name)
+		if !ok || (keyName != "" && name == keyName) || name == valName {
+			continue
+		}
+		switch {
+		case assigned[name] && !declared[name]:
+			carried = append(carried, f.lv(name))
+			carriedT = append(carriedT, t)
+			outer = append(outer, f.lv(name))
+			outerT = append(outerT, t)
+		case used[name] || (valName != "" && mvars[name]):
+			imm = append(imm, f.lv(name))
+			immT = append(immT, t)
+		}
+	}
+	for _, name := range f.order {
+		if declared[name] && assigned[name] {
+			if _, ok := f.lookup(name); ok {
+				f.fail(v, "loop body redeclares outer variable %s", name)
+			}
+		}
+	}
+
+	saved := f.loop
+	f.loop = &loopCtx{helper: helper, imm: imm, carried: carried, outer: outer, extra: "keys_"}
+	var h emitter
+	var sigParts []string
+	for i, n := range imm {
+		sigParts = append(sigParts, fmt.Sprintf("(%s : %s)", n, immT[i].lean()))
+	}
+	resT := fmt.Sprintf("Except Fault (LoopR %s %s)", parenT(leanTuple(outerT)), parenT(f.sig.resultType()))
+	arrow := "Nat → List Bytes → "
+	for _, t := range carriedT {
+		arrow += parenArrow(t.lean()) + " → "
+	}
+	h.add(0, fmt.Sprintf("/-- the `for … range` statement at %s -/", f.g.pos(v)))
+	h.add(0, fmt.Sprintf("def %s %s: %s%s", helper, joinSp(sigParts), arrow, resT))
+	h.add(1, "| 0, _"+strings.Repeat(", _", len(carried))+" => .error .diverge")
+	h.add(1, "| fuel + 1, keys_"+prefixEach(", ", carried)+" => do")
+	for _, c := range carried {
+		h.add(2, fmt.Sprintf("let mut %s := %s", c, c))
+	}
+	h.add(2, "match keys_ with")
+	h.add(2, "| [] => return .done "+tupleVal(outer))
+	if keyName != "" {
+		keyLean = f.lv(keyName)
+	}
+	h.add(2, "| "+keyLean+" :: keys_ =>")
+	if valName != "" {
+		switch {
+		case pkgInfo == nil:
+			h.add(3, fmt.Sprintf("let %s : Bytes := (mapGet %s %s)", f.lv(valName), m.code, keyLean))
+		case pkgInfo.valKind == kInt:
+			h.add(3, fmt.Sprintf("let %s : Int := (pmGetI %s %s)", f.lv(valName), pkgName, keyLean))
+		default:
+			h.add(3, fmt.Sprintf("let %s : Bytes := (pmGetS %s %s)", f.lv(valName), pkgName, keyLean))
+		}
+	}
+	f.push()
+	term := f.block(v.Body.List, 3, &h)
+	f.pop()
+	if !term {
+		h.add(3, f.loopCall("fuel"))
+	}
+	f.loop = saved
+	f.helpers = append(f.helpers, strings.Join(h.lines, "\n"))
+
+	f.ntmp++
+	ks := fmt.Sprintf("ks%d_", f.ntmp)
+	if pkgOrder != "" {
+		em.add(ind, fmt.Sprintf("let %s : List Bytes := %s", ks, pkgOrder))
+	} else {
+		em.add(ind, fmt.Sprintf("let %s : List Bytes := (mapKeys %s)", ks, m.code))
+	}
+	call := helper + prefixEach(" ", imm) + " (" + ks + ".length + 1) " + ks + prefixEach(" ", carried)
+	f.loopCallSite(call, outer, ind, em)
+}
+
+// loopCallSite emits the `match ← helper … with` that follows every loop.
+func (f *ftr) loopCallSite(call string, outer []string, ind int, em *emitter) {
 	em.add(ind, "match ← "+call+" with")
 	if f.loop != nil {
 		em.add(ind, "| .ret ret_ => return .ret ret_")
@@ -2137,7 +2757,7 @@ func prefixEach(p string, xs []string) string {
 // ---- one function -----------------------------------------------------------------------------
 
 func (g *trGen) translateFunc(sig *trSig) (text string, deps []string, why string) {
-	f := &ftr{g: g, sig: sig, deps: map[string]bool{}}
+	f := &ftr{g: g, sig: sig, deps: map[string]bool{}, alias: map[string]string{}, ndecl: map[string]int{}}
 	defer func() {
 		if r := recover(); r != nil {
 			u, ok := r.(unsupported)
@@ -2150,6 +2770,9 @@ func (g *trGen) translateFunc(sig *trSig) (text string, deps []string, why strin
 	fd := sig.fd
 	f.push()
 	var sigParts []string
+	for _, o := range sig.orders {
+		sigParts = append(sigParts, fmt.Sprintf("(%s_order_ : List Bytes)", leanVar(o)))
+	}
 	for _, p := range sig.params {
 		f.scopes[0][goName(p.name)] = p.t
 		f.order = append(f.order, goName(p.name))
@@ -2162,10 +2785,15 @@ func (g *trGen) translateFunc(sig *trSig) (text string, deps []string, why strin
 	assignedIn(fd.Body, assigned, declared, bufs, func(c *ast.CallExpr) []string { return f.inoutArgs(c) })
 	for _, p := range sig.params {
 		if assigned[goName(p.name)] {
-			if p.t.k == kPtr || p.t.k == kMap {
-				f.fail(fd, "pointer/map parameter %s is assigned (caller-visible mutation is outside the subset)", p.name)
+			if p.t.k == kPtr {
+				f.fail(fd, "pointer parameter %s is assigned (caller-visible mutation is outside the subset)", p.name)
 			}
 			em.add(1, fmt.Sprintf("let mut %s := %s", p.name, p.name))
+			if sig.rebound[p.name] {
+				// the caller's view of the map, and whether the variable still refers to the caller's map
+				em.add(1, fmt.Sprintf("let mut %s_out_ := %s", p.name, p.name))
+				em.add(1, fmt.Sprintf("let mut %s_linked_ : Bool := true", p.name))
+			}
 		}
 	}
 	// named results start at their zero value
@@ -2175,7 +2803,7 @@ func (g *trGen) translateFunc(sig *trSig) (text string, deps []string, why strin
 			for _, n := range fl.Names {
 				f.declare(n, n.Name, sig.rets[i])
 				f.named = append(f.named, n.Name)
-				em.add(1, fmt.Sprintf("let mut %s : %s := %s", leanVar(n.Name), sig.rets[i].lean(), f.zero(n, sig.rets[i])))
+				em.add(1, fmt.Sprintf("let mut %s : %s := %s", f.lv(n.Name), sig.rets[i].lean(), f.zero(n, sig.rets[i])))
 				i++
 			}
 		}
@@ -2229,6 +2857,9 @@ func (g *trGen) stub(sig *trSig, why string) string {
 	var sigParts []string
 	res := "Unit"
 	if sig.ok {
+		for _, o := range sig.orders {
+			sigParts = append(sigParts, fmt.Sprintf("(%s_order_ : List Bytes)", leanVar(o)))
+		}
 		for _, p := range sig.params {
 			sigParts = append(sigParts, fmt.Sprintf("(%s : %s)", p.name, p.t.lean()))
 		}
@@ -2299,7 +2930,7 @@ func translateAll(p *pkgFiles, repo, outPath string) {
 	b.WriteString("/- GENERATED by tools/extract (translate.go) from the Go sources — do not edit.\n")
 	b.WriteString("   Each definition is the syntax-directed translation of one Go function into the `Except Fault` monad\n")
 	b.WriteString("   over the run-time of Girc/Base/GoSem.lean.  Equivalence with the hand-written models is proved in\n")
-	b.WriteString("   Girc/Proofs/Trans*.lean and restated in Girc/Props/Tie.lean. -/\n")
+	b.WriteString("   Girc/Proofs/Trans*.lean and restated in Girc/Props/Tie*.lean. -/\n")
 	b.WriteString("set_option linter.unusedVariables false\n")
 	b.WriteString("namespace Girc.Gen.Fn\nopen Girc Girc.Model Girc.Go\n\n")
 	var cn []string
